@@ -379,4 +379,9 @@ def check(ctx: Ctx) -> str:
     ctx.check(norm, "nfkc", "idtracking:Symbols._define_ref", "template names embedded unnormalised",
               "the Python identifier l_<level>_<name> is built from the raw template name; CPython NFKC-normalises identifiers, Jinja's context lookup does not: two distinct template names such as `ﬁ` and `fi` share one Python local ({% set ﬁ = 1 %}{% set fi = 2 %}{{ ﬁ }} renders 2)",
               dr.loc())
+    # the special loop variable exists only if find_undeclared saw the reference (a nested
+    # loop's filter and else branch are evaluated in the enclosing loop's scope)
+    from .c07 import undeclared_visitor_rule
+
+    undeclared_visitor_rule(ctx, "R10")
     return __doc__ or ""
